@@ -147,7 +147,7 @@ def build(config, tier):
                 body = "let buf: [%s; %d] = vk::any(); let len: usize = vk::any(); vk::assume(len < %d); let _v = <%s>::%s(&buf[..len]);" % (t, L, K, N, rd)
                 obs.append(Ob("c18_%s_%s_%s_short" % (config, ln, rd), PROP, body, fn="%s::%s" % (N, rd), kind="panic", panic=True, solver="cadical", stubs=["sse"], cls="control", unwind=L + 3,
                               desc="%s::%s on a slice shorter than %d never returns (documented panic)" % (N, rd, K)))
-            if re.search(r"pub fn %s\(" % wr, src):
+            if re.search(r"pub (?:const )?fn %s\(" % wr, src):
                 K = cnt
                 L = K + 4
                 body = ("let v = mk::<%s>(); let old: [%s; %d] = vk::any(); let mut buf = old; let len: usize = vk::any(); vk::assume(len >= %d && len <= %d); v.%s(&mut buf[..len]);\n"
